@@ -61,6 +61,10 @@ type eRule struct {
 	Audit bool     `json:"audit"`
 }
 type eCase struct {
+	Ae    string      `json:"ae,omitempty"`    // audit engine (audit engine only)
+	Rs    string      `json:"rs,omitempty"`    // relevant-status token: "-", pre:<d>, sub:<d>, eq:<d>
+	Resp  string      `json:"resp,omitempty"`  // response status passed to ProcessResponseHeaders (hex field)
+	Parts string      `json:"parts,omitempty"` // SecAuditLogParts (hex field)
 	Mode  string      `json:"mode"`
 	Rules []eRule     `json:"rules"`
 	Get   [][2]string `json:"get"`
@@ -88,6 +92,10 @@ func (a eNAct) MarshalJSON() ([]byte, error) {
 		m["tag"] = a.Tag
 	case "ctlRemoveTargetById":
 		m["lo"], m["hi"], m["v"], m["k"] = a.Lo, a.Hi, a.Var, a.K
+	case "ctlAuditEngine":
+		m["m"] = a.M
+	case "ctlAuditLogParts":
+		m["k"] = a.K
 	}
 	return json.Marshal(m)
 }
@@ -104,8 +112,10 @@ func (a *eNAct) UnmarshalJSON(b []byte) error {
 	case "setvar":
 		a.K, a.V = s("k"), s("v")
 		a.Rm, _ = m["rm"].(bool)
-	case "ctlRuleEngine":
+	case "ctlRuleEngine", "ctlAuditEngine":
 		a.M = s("m")
+	case "ctlAuditLogParts":
+		a.K = s("k")
 	case "ctlRemoveById":
 		a.ID = n("id")
 	case "ctlRemoveByRange":
@@ -149,6 +159,10 @@ func renderNAct(a eNAct) string {
 			return "setvar:'!tx." + gen.Unfield(a.K) + "'"
 		}
 		return "setvar:'tx." + gen.Unfield(a.K) + "=" + gen.Unfield(a.V) + "'"
+	case "ctlAuditEngine":
+		return "ctl:auditEngine=" + a.M
+	case "ctlAuditLogParts":
+		return "ctl:auditLogParts=" + gen.Unfield(a.K)
 	case "ctlRuleEngine":
 		return "ctl:ruleEngine=" + a.M
 	case "ctlRemoveById":
@@ -323,7 +337,11 @@ func runEngCase(waf coraza.WAF, c *eCase, cbp *[]string) string {
 		case "b2":
 			it, _ = tx.ProcessRequestBody()
 		case "h3":
-			it = tx.ProcessResponseHeaders(200, "HTTP/1.1")
+			code := 200
+			if c.Resp != "" {
+				code, _ = strconv.Atoi(gen.Unfield(c.Resp))
+			}
+			it = tx.ProcessResponseHeaders(code, "HTTP/1.1")
 		case "b4":
 			it, _ = tx.ProcessResponseBody()
 		case "lg":
